@@ -236,13 +236,29 @@ def hashseed_spec(draw):
         algos = spec["tree"]["algos"]
         tick = sorted(spec["prices"])
         choice = draw(st.sampled_from(["selrand", "weighrand", "selrand+weighrand"]))
-        new = [["RunDaily", {}], ["SelectAll", {}]]
+        # whichever algo produces the selection, its order must not depend on the process
+        some = draw(st.lists(st.sampled_from(tick), min_size=min(2, len(tick)), max_size=len(tick), unique=True))
+        sel = draw(
+            st.sampled_from(
+                [
+                    [["SelectAll", {}]],
+                    [["SelectThese", {"tickers": some}]],
+                    [["SelectHasData", {"lookback": {"days": 400}, "min_count": 1}]],
+                    [["SelectAll", {}], ["SelectRegex", {"regex": "."}]],
+                    [["SelectAll", {}], ["SelectMomentum", {"n": len(tick), "lookback": {"days": 400}}]],
+                ]
+            )
+        )
+        new = [["RunDaily", {}]] + sel
         if "selrand" in choice:
             new.append(["SelectRandomly", {"n": draw(st.integers(1, max(1, len(tick) - 1)))}])
         new.append(["WeighRandomly", {}] if "weighrand" in choice else ["WeighEqually", {}])
         new.append(["Rebalance", {}])
         spec["tree"]["algos"] = new
-        spec["tree"]["children"] = list(tick)
+        if draw(st.booleans()):
+            spec["tree"]["children"] = list(tick)
+        else:
+            spec["tree"].pop("children", None)
     return spec
 
 
